@@ -11,7 +11,8 @@
 (*   Register     ModelRegistry.process_meta_data  (DFS, pre-order indices) *)
 (*   Sim          _models_cmp_fn (ANY configured comparator)                *)
 (*   InitGroups   the models2merge dict and the initial group list          *)
-(*   PassOut/Flag one iteration of the `while flag` closure loop            *)
+(*   PassOut/Flag one iteration of the `while flag` closure loop (replaced  *)
+(*                in the code by a traversal: TraversalGroups)              *)
 (*   MergeGroup   _merge: merge_field_sets, unregister, retarget pointers   *)
 (*   MergeModels  merge_models incl. the final optimise-everything pass     *)
 (* PROPERTY LAYER                                                           *)
@@ -75,6 +76,23 @@ Flag(groups) == \E i, j \in DOMAIN groups : i # j /\ groups[i] \cap groups[j] # 
 RECURSIVE Closure(_)
 Closure(groups) == IF Flag(groups) THEN (LET g2 == PassOut(groups) IN IF g2 = g2 THEN Closure(g2) ELSE g2) ELSE groups
 
+\* merge_models (since the repair of the exponential loop): the connected components of the similarity graph by a traversal,
+\* one per not yet grouped key of the models2merge dict, i.e. in the order in which their first member got a partner.
+\* (PassOut / Closure above is the loop it replaced; MC_Closure checks for every relation that both give the same list.)
+RECURSIVE ReachPos(_, _, _, _)
+ReachPos(S, ms, policy, k) ==
+  IF k = 0 THEN S
+  ELSE LET S2 == S \cup {j \in DOMAIN ms : \E i \in S : i # j /\ SimM(policy, ms[i], ms[j])}
+       IN IF S2 = S THEN S ELSE ReachPos(S2, ms, policy, k - 1)
+TraversalGroups(ms, policy) ==
+  LET n == Len(ms)
+      sim(i, j) == SimM(policy, ms[i], ms[j])
+      ps == SelectSeq(PairSeq(n), LAMBDA p : sim(p[1], p[2]))
+      keyOrder == Dedup(FlattenSeq([k \in DOMAIN ps |-> <<ps[k][1], ps[k][2]>>]), <<>>)
+      comps == [k \in DOMAIN keyOrder |-> ReachPos({keyOrder[k]}, ms, policy, n)]
+      firsts == SelectSeq([k \in DOMAIN keyOrder |-> k], LAMBDA k : \A j \in 1..(k - 1) : keyOrder[k] \notin comps[j])
+  IN [k \in DOMAIN firsts |-> comps[firsts[k]]]
+
 \* ------------------------------------------------------------------ retarget
 RECURSIVE Retarget(_, _, _)
 Retarget(t, olds, new) ==
@@ -99,14 +117,14 @@ MergeGroups(st, gs, e) ==
 
 MergeModels(st, policy, e) ==
   LET ms   == st.models
-      gpos == Closure(InitGroups(ms, policy))
+      gpos == TraversalGroups(ms, policy)
       gix  == [k \in DOMAIN gpos |-> {ms[i].ix : i \in gpos[k]}]
       st2  == MergeGroups(st, gix, e)
   IN [st2 EXCEPT !.models = [i \in DOMAIN st2.models |->
                                [ix |-> st2.models[i].ix, t |-> Optimize(st2.models[i].t, e)]]]
 \* the groups merge_models forms (as sets of indices), for ReplacesOK at algorithm level
 MergeGroupsOf(st, policy) ==
-  LET ms == st.models gpos == Closure(InitGroups(ms, policy))
+  LET ms == st.models gpos == TraversalGroups(ms, policy)
   IN {{ms[i].ix : i \in gpos[k]} : k \in DOMAIN gpos}
 
 \* ============================================================ PROPERTY LAYER
